@@ -459,8 +459,9 @@ fn evaluate_for(
             Ok(())
         }
         [ForIteration::Guard(guard), rest @ ..] => {
-            let r = evaluate(env, guard)?;
-            if r.truthy() {
+            // only the truthiness is kept: holding the value would be a second reference to a collection
+            // that the loop body may mutate
+            if evaluate(env, guard)?.truthy() {
                 evaluate_for(env, rest, callback)
             } else {
                 Ok(())
@@ -817,6 +818,8 @@ pub fn evaluate(env: &Rc<RefCell<Env>>, expr: &LocExpr) -> NRes<Obj> {
         Expr::And(lhs, rhs) => {
             let lr = evaluate(env, lhs)?;
             if lr.truthy() {
+                // drop asap: if the value is a collection that rhs mutates, holding it would force a copy
+                std::mem::drop(lr);
                 evaluate(env, rhs)
             } else {
                 Ok(lr)
@@ -1161,13 +1164,16 @@ pub fn evaluate(env: &Rc<RefCell<Env>>, expr: &LocExpr) -> NRes<Obj> {
             }
         }
         Expr::If(cond, if_body, else_body) => {
+            // only the truthiness is kept (see Switch: a held value would be a second reference to a
+            // collection that the branch mutates)
             let cr = add_trace(
                 evaluate(env, cond),
                 || "if-cond".to_string(),
                 expr.start,
                 expr.end,
-            )?;
-            if cr.truthy() {
+            )?
+            .truthy();
+            if cr {
                 add_trace(
                     evaluate(env, if_body),
                     || "if-branch".to_string(),
